@@ -33,6 +33,7 @@ structure Ext where
   sha : Str → Str              -- SHA-256
   nowNs : Int                  -- `time.Now()` in ns since the Unix epoch (one read per call)
   splitHostPortStd : Str → Option (Str × Str)   -- `net.SplitHostPort` (host, port) or error
+  b64RawUrlLenient : Str → Str                  -- `b, _ := base64.RawURLEncoding.DecodeString(s)`: the bytes handed back, error discarded
   parseIP : Str → Option (BitVec 128)           -- `net.ParseIP` (nil ↦ none; a non-nil result has 16 bytes)
   regexMatch : Str → Str → Bool                 -- `regexp.MustCompile(pattern).MatchString(s)`
   urlParse : Str → Option (Str × Str × Str)     -- `url.Parse`: (Hostname(), Port(), Path) or error
@@ -40,7 +41,7 @@ structure Ext where
 
 /-- an `Ext` that answers nothing (examples and searches override the fields they need) -/
 def Ext.trivial : Ext :=
-  { mac := fun _ _ => [], sha := fun _ => [], nowNs := 0, splitHostPortStd := fun _ => none, parseIP := fun _ => none,
+  { mac := fun _ _ => [], sha := fun _ => [], nowNs := 0, splitHostPortStd := fun _ => none, parseIP := fun _ => none, b64RawUrlLenient := fun _ => [],
     regexMatch := fun _ _ => false, urlParse := fun _ => none, urlParseRequestURI := fun _ => none }
 
 /-- `http.Cookie` as far as the translated functions read it -/
@@ -254,6 +255,21 @@ def hmacNew (key : Str) : Hmac := ⟨key, []⟩
 def hmacWrite (h : Hmac) (b : Str) : Hmac := ⟨h.key, h.written ++ b⟩
 def hmacSum (E : Ext) (h : Hmac) (b : Str) : Str := b ++ E.mac h.key h.written
 def hmacEqual (a b : Str) : Bool := a == b
+
+/-- `sha256.New()` with `Write` / `Sum`: the bytes written so far -/
+structure Sha where
+  written : Str
+def shaNew : Sha := ⟨[]⟩
+def shaWrite (h : Sha) (b : Str) : Sha := ⟨h.written ++ b⟩
+def shaSum (E : Ext) (h : Sha) (b : Str) : Str := b ++ E.sha h.written
+
+/-- `strings.SplitN(s, sep, 2)` for a one-byte separator -/
+def stringsSplitN2 (s sep : Str) : List Str :=
+  match sep with
+  | [c] => match splitFirst c s with
+    | (a, some b) => [a, b]
+    | (a, none) => [a]
+  | _ => [s]
 
 /-! ### `time`: a `time.Time` is its distance from the Unix epoch in ns, as comparisons see it -/
 
